@@ -11,6 +11,7 @@ package c06
 import (
 	"errors"
 	"fmt"
+	pkgerrors "github.com/pkg/errors"
 	"sort"
 	"strconv"
 	"strings"
@@ -313,10 +314,51 @@ func (w *world) refuse(unload, after bool, sb *symbol.Symbol) error {
 
 // errs: the error a failing responder k answers with. Built once (responders answer from their
 // own goroutines, two failing targets of one flow concurrently: no lazy initialisation here).
+// Answer styles of a responder (the Resp field of its definition):
+//
+//	0        a payload ("ok")              200  the packet.None singleton (how sinks answer)
+//	1..64    errors.New("E<k>")            201  a fresh empty packet, packet.New(nil)
+//	100+k    errors.WithMessage(E<k>, "init of a")     140+k  errors.WithStack(E<k>)
+//	180+k    a custom error type with a Cause() method and a field naming the symbol (k <= 19)
+//
+// The model's error code is the Resp value; the harness maps the RETURNED error back to a code by the
+// identity of the error value the responder put into its types.NewError answer.
+const (
+	respNone  = 200
+	respEmpty = 201
+)
+
+// symbolError: a custom error type with a Cause() method.
+type symbolError struct {
+	Symbol int
+	cause  error
+}
+
+func (e *symbolError) Error() string { return fmt.Sprintf("symbol %d: %v", e.Symbol, e.cause) }
+func (e *symbolError) Cause() error  { return e.cause }
+func (e *symbolError) Unwrap() error { return e.cause }
+
+// errs: the error value a failing responder with Resp = code answers with. Built once (responders
+// answer from their own goroutines: no lazy initialisation here).
 var errs = func() map[int]error {
 	m := map[int]error{}
 	for k := 0; k <= 64; k++ {
 		m[k] = errors.New("E" + strconv.Itoa(k))
+	}
+	for k := 1; k <= 39; k++ {
+		m[100+k] = pkgerrors.WithMessage(m[k], "init of a")
+		m[140+k] = pkgerrors.WithStack(m[k])
+	}
+	for k := 1; k <= 19; k++ {
+		m[180+k] = &symbolError{Symbol: k, cause: m[k]}
+	}
+	return m
+}()
+
+var errCode = func() map[error]int {
+	m := map[error]int{}
+	for c, e := range errs {
+		m[e] = c
 	}
 	return m
 }()
@@ -644,6 +686,12 @@ func (w *world) build(d *SymDef) *symbol.Symbol {
 		if d.Resp == respDropped {
 			return packet.New(packet.ErrDroppedPacket)
 		}
+		if d.Resp == respNone {
+			return packet.None
+		}
+		if d.Resp == respEmpty {
+			return packet.New(nil)
+		}
 		if d.Resp != 0 {
 			return packet.New(types.NewError(errOf(d.Resp)))
 		}
@@ -685,18 +733,49 @@ func (w *world) build(d *SymDef) *symbol.Symbol {
 	return sb
 }
 
+// errBad: what the error-identity oracle found wrong with returned errors (reported by the runner).
+var errBadMu sync.Mutex
+var errBad []string
+
+// showErr maps the error an operation returned to the codes of the responders' error values: the
+// returned error (or each part of an errors.Join) must BE the value a responder answered with.
 func showErr(err error) string {
 	if err == nil {
 		return "ok"
 	}
+	parts := []error{err}
+	if j, ok := err.(interface{ Unwrap() []error }); ok {
+		parts = j.Unwrap()
+	}
 	var cs []string
-	for _, l := range strings.Split(err.Error(), "\n") {
-		if strings.HasPrefix(l, "E") {
-			cs = append(cs, l[1:])
-		} else if l == packet.ErrDroppedPacket.Error() {
+	for _, e := range parts {
+		if c, ok := errCode[e]; ok {
+			// identity holds; cross-check what a caller would rely on
+			want := errs[c]
+			var se *symbolError
+			if e.Error() != want.Error() || (c > 180 && c < 200 && !errors.As(e, &se)) {
+				errBadMu.Lock()
+				errBad = append(errBad, fmt.Sprintf("returned error %q is not usable as the responder's error %q", e.Error(), want.Error()))
+				errBadMu.Unlock()
+			}
+			cs = append(cs, strconv.Itoa(c))
+			continue
+		}
+		if e == packet.ErrDroppedPacket.Unwrap() || e.Error() == packet.ErrDroppedPacket.Error() {
 			cs = append(cs, strconv.Itoa(respDropped))
-		} else {
-			cs = append(cs, "?"+l)
+			continue
+		}
+		// not a value any responder answered with: say which base error it leads to, if any
+		found := false
+		for k := 0; k <= 64; k++ {
+			if errors.Is(e, errs[k]) || e.Error() == errs[k].Error() {
+				cs = append(cs, "?cause-of-E"+strconv.Itoa(k))
+				found = true
+				break
+			}
+		}
+		if !found {
+			cs = append(cs, "?"+strings.ReplaceAll(e.Error(), "\n", "|"))
 		}
 	}
 	return "err:" + strings.Join(cs, "+")
@@ -1118,7 +1197,7 @@ func flowTargets(cur map[int]*live, d *SymDef, ph int) (ts []int, fails []int) {
 					continue
 				}
 				ts = append(ts, t.ID)
-				if t.Resp != 0 {
+				if t.Resp != 0 && t.Resp < respNone {
 					fails = append(fails, t.Resp)
 				}
 			}
